@@ -3,39 +3,58 @@
    Reading guide.  [run tr init p] is the explicit-heap model of cow.rs (pointer + (len, cap) words,
    kind recomputed by [kind_of] = Metadata::kind, freed flags, Arc strong counts, explicit faults);
    [spec_outs tr p] is the value semantics of Spec.v (no heap, no faults, a handle is its content).
-   [core p] = every capacity handed in is a capacity a Vec can have ([op_wf]) and the program does
-   not use [WithExtra]: the simulation is NOT proved for WithExtra (Key::with_extra_labels), which is
-   covered only by the correspondence runs -- hence the _partial suffix.  Everything else (all
-   constructors, all (len, cap) incl. empty owned values, clone, deref, cmp, into_owned, drop,
-   caller-side Arc clone/drop, operations naming consumed handles) is covered for all programs.  *)
+   [core p] = every capacity / length handed in by the caller is one a Vec can have ([op_wf]:
+   len <= cap <= isize::MAX); it restricts no operation.  The theorems cover all programs over all
+   constructors, all (len, cap) incl. empty owned values, clone, deref, cmp, into_owned, conversion
+   to std::borrow::Cow, with_extra_labels, drop, caller-side Arc clone/drop, and operations naming
+   consumed handles.
+
+   Fixed defect (repo commit "fix: make the Cow -> std::borrow::Cow conversion apply to unsized
+   targets"): before it, `impl From<Cow<T>> for std::borrow::Cow<T>` required T: Sized and applied
+   to no Cowable type; that was a compile-time absence, so there is no run-time behaviour to refute
+   in the model -- the driver detects the absence (outcome fNoStdCow) on the reverted source.     *)
 From Coq Require Import List NArith ZArith Bool.
 Import ListNotations.
 Require Import MV.C14.Model MV.C14.Spec MV.C14.Exec MV.C14.Proofs MV.C14.ProofsRun MV.C14.ExecProofs.
 Open Scope N_scope.
 
-(* full statement (not proved): forall tr p, wf p = true -> fst (run tr init p) = spec_outs tr p *)
-Theorem C14_model_meets_spec_partial : forall tr p, core p = true -> fst (run tr init p) = spec_outs tr p.
+Theorem C14_model_meets_spec : forall tr p, core p = true -> fst (run tr init p) = spec_outs tr p.
 Proof. exact model_meets_spec. Qed.
 
-Theorem C14_spec_ok_on_model_partial : forall c, core (snd c) = true -> spec_ok c (run_case c) = true.
+Theorem C14_spec_ok_on_model : forall c, core (snd c) = true -> spec_ok c (run_case c) = true.
 Proof. exact spec_ok_on_model. Qed.
 
 Theorem C14_spec_ok_iff : forall c o, spec_ok c o = true <-> o = spec_outs (fst c) (snd c).
 Proof. exact spec_ok_iff. Qed.
 
 (* deref / cmp / into_owned results are those of the value semantics: the content the handle was built from *)
-Theorem C14_reads_back_content_partial : forall tr p, core p = true ->
+Theorem C14_reads_back_content : forall tr p, core p = true ->
   map res_of (fst (run tr init p)) = map res_of (spec_outs tr p).
 Proof. intros tr p H. rewrite (model_meets_spec tr p H). reflexivity. Qed.
 
-Theorem C14_no_uaf_no_double_free_partial : forall tr p, core p = true ->
+Theorem C14_no_uaf_no_double_free : forall tr p, core p = true ->
   forallb (fun o => negb (is_fault (res_of o))) (fst (run tr init p)) = true.
 Proof. exact no_fault. Qed.
 
-Theorem C14_balanced_partial : forall tr p, core p = true -> let m := snd (run tr init p) in all_consumed m ->
+Theorem C14_balanced : forall tr p, core p = true -> let m := snd (run tr init p) in all_consumed m ->
   (forall a x, nth_error (allocs m) a = Some x -> a_freed x = true) /\
   (forall r x, nth_error (arcs m) r = Some x -> r_strong x = r_caller x /\ r_freed x = (r_caller x =? 0)).
 Proof. exact balanced. Qed.
+
+(* counter form of balance, on the observable deltas: they sum to the number of Arcs the caller still
+   holds and to the number of elements inside those Arcs (both 0 when the caller holds none) *)
+Theorem C14_balanced_counters : forall tr p, core p = true -> let m := snd (run tr init p) in all_consumed m ->
+  wsum da_of (fst (run tr init p)) = wsum held (arcs m) /\
+  wsum de_of (fst (run tr init p)) = wsum (held_elems tr) (arcs m).
+Proof. exact balanced_counters. Qed.
+
+(* conversion to std::borrow::Cow: Borrowed exactly for borrows and for owned values without a buffer
+   (the empty slice); otherwise Owned, releasing what into_owned releases *)
+Theorem C14_into_std_cow_kinds : forall tr s h d o, sget s h = Some (d, o) ->
+  sstep tr s (IntoStdCow h) =
+    (if std_borrowed o then (RStd true d, 0%Z, 0%Z) else (RStd false d, fst (release tr s (d, o)), snd (release tr s (d, o))),
+     sconsume s h).
+Proof. intros tr s h d o H. simpl. rewrite H. simpl. destruct (std_borrowed o); reflexivity. Qed.
 
 (* the kind collision: an empty owned value of capacity 0 is classified Borrowed; it is a well-formed
    operation (so the three theorems above cover every program containing it), it allocates nothing
@@ -63,12 +82,14 @@ Proof. exact checks_not_vacuous. Qed.
 
 Example C14_example :
   let p := [ArcNew [1;2]; FromShared 0; Clone 0; FromOwned [] 0; FromOwned [] 8; FromOwned [3] 4; Clone 4; Clone 2;
-            ArcDrop 0; IntoOwned 0; Deref 1; Cmp 4 5; Drop 1; Drop 2; IntoOwned 3; Drop 4; Drop 5; IntoOwned 6] in
+            ArcDrop 0; IntoOwned 0; Deref 1; Cmp 4 5; WithExtra 1 [7]; WithExtra 2 [8]; WithExtra 4 []; FromBorrowed [9];
+            IntoStdCow 1; IntoStdCow 2; IntoOwned 3; IntoStdCow 4; Drop 5; IntoOwned 6; Drop 7; IntoStdCow 8; Drop 9; IntoStdCow 10] in
   core p = true /\ all_consumed (snd (run true init p)) /\ fst (run true init p) = spec_outs true p /\
+  wsum da_of (fst (run true init p)) = 0%Z /\ wsum de_of (fst (run true init p)) = 0%Z /\
   map res_of (fst (run true init p)) =
-    [RUnit; RUnit; RUnit; RUnit; RUnit; RUnit; RUnit; RUnit; RUnit; RContent [1;2]; RContent [1;2]; RCmp 1; RUnit; RUnit;
-     RContent []; RUnit; RUnit; RContent []].
+    [RUnit; RUnit; RUnit; RUnit; RUnit; RUnit; RUnit; RUnit; RUnit; RContent [1;2]; RContent [1;2]; RCmp 1; RUnit; RUnit; RUnit; RUnit;
+     RStd false [1;2]; RStd true []; RContent []; RStd false [3]; RUnit; RContent []; RUnit; RStd false [8]; RUnit; RStd true [9]].
 Proof.
-  split; [reflexivity|]. split. { intros i. do 7 (destruct i as [|i]; [reflexivity|]). destruct i; reflexivity. }
-  split; vm_compute; reflexivity.
+  split; [reflexivity|]. split. { intros i. do 11 (destruct i as [|i]; [reflexivity|]). destruct i; reflexivity. }
+  repeat split; vm_compute; reflexivity.
 Qed.
